@@ -90,8 +90,9 @@ class Run:
         ev = {"property_id": self.prop, "tier": self.tier, "seed": self.seed, "level": level, "coverage": self.cov,
               "assumptions": self.assumptions, "wall_s": round(wall, 2), "violations": len(self.violations),
               "known_findings_hit": self.known_hits, "undecided": self.undecided}
-        os.makedirs(os.path.join(HERE, "evidence"), exist_ok=True)
-        json.dump(ev, open(os.path.join(HERE, "evidence", f"{self.prop}.json"), "w"), indent=1, default=str)
+        evdir = os.environ.get("VERIF_EVIDENCE_DIR") or os.path.join(HERE, "evidence")   # (scratch dir when trying seeded changes)
+        os.makedirs(evdir, exist_ok=True)
+        json.dump(ev, open(os.path.join(evdir, f"{self.prop}.json"), "w"), indent=1, default=str)
         for line in self.known_hits:
             print(line)
         for c in self.crashes:
